@@ -169,6 +169,26 @@ impl Ctx {
                 to_file(&self.arg3, false);
             }
             OutMode::None => {}
+            OutMode::Append => {
+                // two appending writes, like `echo a >>$3; echo b >>$3`
+                let c = cstr(&self.arg3);
+                let half = bytes.len() / 2;
+                for part in [&bytes[..half], &bytes[half..]] {
+                    let fd = unsafe {
+                        libc::open(
+                            c.as_ptr(),
+                            libc::O_WRONLY | libc::O_CREAT | libc::O_APPEND,
+                            0o644,
+                        )
+                    };
+                    if fd >= 0 {
+                        write_all(fd, part, 16384);
+                        unsafe {
+                            libc::close(fd);
+                        }
+                    }
+                }
+            }
             OutMode::Direct => to_file(&self.arg1, true),
             OutMode::Rm3 => {
                 to_file(&self.arg3, false);
@@ -345,10 +365,14 @@ fn main() {
                 flag,
                 code,
                 partial,
+                direct,
             } => {
                 let p = format!("{}/{}", root, flag);
                 let on = read_file(&p).map_or(false, |b| b.first() == Some(&b'1'));
                 if on {
+                    if *direct {
+                        cx.mode = OutMode::Direct;
+                    }
                     if *partial {
                         let bytes = assemble(&cx.lines, cx.pad);
                         cx.emit_output(&bytes[..bytes.len() / 2]);
